@@ -105,6 +105,9 @@ func WrapJPEG(tiff []byte, rng *rand.Rand, lvl int) []byte {
 	if lvl >= 2 {
 		seg(0xFE, opaque(1+rng.Intn(300)))
 		seg(0xED, append([]byte("Photoshop 3.0\x00"), opaque(rng.Intn(200))...))
+		if rng.Intn(4) == 0 { // a full ICC chunk: the longest segment there is (length field 0xFFFF), or one byte less
+			seg(0xE2, append([]byte("ICC_PROFILE\x00\x01\x02"), opaque(65533-14-rng.Intn(2))...))
+		}
 	}
 	seg(0xE1, append([]byte(exifPrefix), tiff...))
 	if lvl >= 1 {
@@ -281,9 +284,13 @@ func WrapHEIF(tiff []byte, brand string, rng *rand.Rand, lvl int) []byte {
 	}
 	// iloc (version 0, offset_size 4, length_size 4, base_offset_size 0): offsets are absolute file offsets
 	mk := func(imgOff, exifOff int) []byte {
-		iloc := FullBox("iloc", 0, 0, []byte{0x44, 0x00}, u16(2),
-			u16(1), u16(0), u16(1), u32(imgOff), u32(len(img)),
-			u16(2), u16(0), u16(1), u32(exifOff), u32(len(item)))
+		first := [][]byte{u16(1), u16(0), u16(1), u32(imgOff), u32(len(img))}
+		if lvl >= 2 { // the image item in two extents (legal; the Exif item's entry follows it)
+			h := len(img) / 2
+			first = [][]byte{u16(1), u16(0), u16(2), u32(imgOff), u32(h), u32(imgOff + h), u32(len(img) - h)}
+		}
+		iloc := FullBox("iloc", 0, 0, append([][]byte{{0x44, 0x00}, u16(2)}, append(first,
+			u16(2), u16(0), u16(1), u32(exifOff), u32(len(item)))...)...)
 		meta := FullBox("meta", 0, 0, hdlr, pitm, iinf, iloc, extra)
 		return meta
 	}
